@@ -7,7 +7,7 @@ well-formed histories (`opOk`, `validFrom`), and the quiescent invariant `QInv` 
 preservation by every public operation.
 -/
 set_option linter.unusedVariables false
-namespace AsherahVerif.Env
+namespace AsherahVerif.Env.Res
 
 /-- a bounded cache kind is usable: capacity at least 1 (with capacity 0 the first `Set` panics,
 see C15 `cap0_panics`). -/
@@ -879,4 +879,10 @@ theorem QInv.runOps {w : World} (h : QInv w) (ops : List Op) (hv : validFrom w o
     rw [runOps_snd_cons]
     exact ih (h.applyOp op hv.1 (hnb op List.mem_cons_self)) hv.2 (fun o ho => hnb o (List.mem_cons_of_mem _ ho))
 
+end AsherahVerif.Env.Res
+
+/-! the vocabulary of well-formed histories is part of the public statement of C09 (and of the
+composition theorems): visible under `open AsherahVerif.Env`. -/
+namespace AsherahVerif.Env
+export Res (kindOk CapsPosOp opOk validFrom CapsPos)
 end AsherahVerif.Env
